@@ -7,12 +7,13 @@ from verifkit import frameio as F
 ID = "C15"
 THM_MODULES = ["Minicbor.Thm.C15"]
 P = "Minicbor.C15."
-REQUIRED = [P + n for n in """drop_is_identity run_drop_irrelevant
-poll_inv poll_script_suffix
+REQUIRED = [P + n for n in """drop_is_identity run_fut_irrelevant run_drop_irrelevant
+poll_inv poll_script_suffix run_spec
 async_reader_schedule_independent async_reader_complete async_reader_roundtrip
 transient_error_once transient_error_resumes
 async_truncation async_truncation_never_value
-async_resync async_alloc async_oversize_rejected offset_le_four""".split()]
+async_resync poll_good async_alloc offset_le_four async_oversize_rejected""".split()] + [
+    "Minicbor.Frame.pollLoop_spec", "Minicbor.Frame.pollLoop_script", "Minicbor.Frame.absorb_settle", "Minicbor.Frame.frame_inj"]
 PACKAGES = ["hio"]
 RULE = ("aread scenarios on the real AsyncReader over a scripted futures_io::AsyncRead, futures polled by hand with a no-op waker and dropped "
         "where the schedule says so: streams <=10 bytes x ALL compositions into delivery sizes x every placement of <=2 Pendings (incl. "
